@@ -98,7 +98,7 @@ def corpus_cases():
 
 def run(chk: Check) -> int:
     proof = proof_stage(PROP, "driver_c01", chk.thorough) if not getattr(chk, "skip_proof", False) else None
-    n = chk.budget(400, 20000)
+    n = chk.budget(6000, 150000)
     found = 0
     evaluations = 0
     distinct = set()
@@ -111,8 +111,19 @@ def run(chk: Check) -> int:
         cfg = CFGS[i % len(CFGS)]
         maxlen = 40 if i % 3 else 12
         cases.append((f"gen:{i}", cfg, memhist.gen_history(chk.rng, NKEYS, maxlen)))
+    # run the implementation on every case, then the model driver ONCE on all of them (one `case` line resets it)
+    runs = []
     for origin, cfg, ops in cases:
-        eff, answers, stats = run_case(cfg, ops)
+        eff, stats = memhist.execute(cfg, SIZE, ops)
+        runs.append((origin, cfg, ops, eff, stats))
+    lines, spans = [], []
+    for _, _, _, eff, _ in runs:
+        ml = model_lines(eff)
+        spans.append((len(lines), len(lines) + len(ml)))
+        lines.extend(ml)
+    all_answers = DRIVER.ask(lines) if lines else []
+    for (origin, cfg, ops, eff, stats), (a, b) in zip(runs, spans):
+        answers = all_answers[a:b]
         evaluations += 1
         for l, _ in eff:
             w = l.split()
